@@ -364,10 +364,12 @@ def csscombine(
 
     oldser = cssutils.ser
     cssutils.setSerializer(cssutils.serialize.CSSSerializer())
-    if minify:
-        cssutils.ser.prefs.useMinified()
-    cssutils.ser.prefs.resolveVariables = resolveVariables
-    cssText = result.cssText
-    cssutils.setSerializer(oldser)
+    try:
+        if minify:
+            cssutils.ser.prefs.useMinified()
+        cssutils.ser.prefs.resolveVariables = resolveVariables
+        cssText = result.cssText
+    finally:
+        cssutils.setSerializer(oldser)
 
     return cssText
